@@ -296,6 +296,8 @@ class Built:
         base = type("GeneratedBase", (), inherited) if inherited else object
         cls = type("Generated", (base,), own)
         cls.__vlib_members__ = [m["name"] for m in n["members"]]
+        import json as _json
+        cls.__vlib_key__ = _json.dumps(n, sort_keys=True, default=repr)
         return datasetclass(cls)
 
     def n_dict(self, n):
@@ -304,7 +306,12 @@ class Built:
     def n_fapp(self, n):
         def fapp(*a, **kw):
             return ("fapp", tuple(sem.freeze(x) for x in a), tuple(sorted((k, sem.typed(v)) for k, v in kw.items())))
-        return FunctionApplication(fapp, *[self.node(a) for a in n["args"]], **{k: self.node(v) for k, v in n["kwargs"].items()})
+        func = fapp
+        if "fn" in n:
+            def other(*a, **kw):
+                return ("fapp-alt",) + fapp(*a, **kw)[1:]
+            func = self.node(n["fn"]).apply(lambda v: fapp if sem.pick_first(v) else other)
+        return FunctionApplication(func, *[self.node(a) for a in n["args"]], **{k: self.node(v) for k, v in n["kwargs"].items()})
 
     def n_map(self, n):
         m = Map(self.node(n["body"]), {k: self.node(v) for k, v in n["iters"]})
